@@ -431,6 +431,6 @@ ReopenInv == (status = "open" /\ tx.st = "none") => SameObs(Replay(log), mem, 0)
 \* Only committed ids contribute to a reopen: a log whose failed records
 \* share no id with a committed record replays as if they were absent.
 TypeOK ==
-  /\ status \in {"open", "closed"}
+  /\ status \in {"open", "closed", "lost"}
   /\ tx.st \in {"none", "rw", "ro"}
 =============================================================================
